@@ -18,6 +18,7 @@ import (
 	"github.com/trustbloc/sidetree-go/pkg/jwsutil"
 	"github.com/trustbloc/sidetree-go/pkg/util/ecsigner"
 	"github.com/trustbloc/sidetree-go/pkg/util/edsigner"
+	"github.com/trustbloc/sidetree-go/pkg/util/pubkey"
 	"github.com/trustbloc/sidetree-go/pkg/util/signutil"
 	"pgregory.net/rapid"
 )
@@ -133,6 +134,33 @@ func TestC15_SignVerify(t *testing.T) {
 		}
 		if !bytes.Equal(parsed.Payload, payload) {
 			t.Fatalf("C15 %s: payload returned %x want %x", k.Name, parsed.Payload, payload)
+		}
+		// the matching public JWK as the library derives it from the key
+		libJ, err := pubkey.GetPublicKeyJWK(k.Public())
+		if err != nil {
+			t.Fatalf("C15 GetPublicKeyJWK: %v", err)
+		}
+		if _, err := jwsutil.VerifyJWS(compact, libJ); err != nil {
+			t.Fatalf("C15 %s: signature does not verify under the JWK the library derives from the key: %v\n jwk=%+v", k.Name, err, libJ)
+		}
+		// detached payload: header..signature verifies with the payload supplied separately, and only in that shape
+		{
+			segs := strings.Split(compact, ".")
+			det := segs[0] + ".." + segs[2]
+			pd, err := jwsutil.VerifyJWS(det, jwk, jwsutil.WithJWSDetachedPayload(payload))
+			if err != nil || !bytes.Equal(pd.Payload, payload) {
+				t.Fatalf("C15 %s: detached JWS does not verify with its payload: %v", k.Name, err)
+			}
+			for _, malformed := range []string{segs[0] + "..." + segs[2], segs[0] + "." + segs[1] + "." + segs[1] + "." + segs[2], segs[0] + "..AAAA." + segs[2],
+				segs[0] + "...." + segs[2], segs[0] + "." + segs[2], segs[0] + "..%%." + segs[2]} {
+				if _, err := jwsutil.VerifyJWS(malformed, jwk, jwsutil.WithJWSDetachedPayload(payload)); err == nil {
+					t.Fatalf("C15 %s: malformed compact form verified with a detached payload: %s", k.Name, malformed)
+				}
+			}
+			other := append(append([]byte{}, payload...), 'x')
+			if _, err := jwsutil.VerifyJWS(det, jwk, jwsutil.WithJWSDetachedPayload(other)); err == nil {
+				t.Fatalf("C15 %s: detached JWS verified with another payload", k.Name)
+			}
 		}
 		// differential: standard library over the transmitted signing input
 		hb, pb, sb, ok := splitCompact(compact)
